@@ -27,7 +27,7 @@ def _X(P, **hooks):
 
 def call(X, st, name, args):
     fi = X.P.modules["histogrammar.util"].functions[name]
-    st.frames = [{"__module__": "histogrammar.util"}]
+    st.frames = [{"%module": "histogrammar.util"}]
     return X.call_function(st, fi, args, {})
 
 
@@ -91,7 +91,7 @@ def run_task(P, task, prop, tier, out):
                 # import b's object into a's state (fields are terms over shared constants)
                 s.heap[vb.oid] = sb.heap[vb.oid]
                 s.pc += [c for c in sb.pc]
-                s.frames = [{"__module__": "histogrammar.util"}]
+                s.frames = [{"%module": "histogrammar.util"}]
                 for i, r in enumerate(X.call_function(s, eqfi, [va, vb], {})):
                     goal = z3.BoolVal(False) if r.exc is not None else X.truth(r.st, r.v)
                     vc = smt.build_vc("c17", r.st.fork(), goal)
@@ -138,7 +138,7 @@ def run_task(P, task, prop, tier, out):
                 fields["fcn"] = VOpq(e, "function")
             w = st.alloc(Inst(cls, fields), new=False)
             pre = st.fork()
-            st.frames = [{"__module__": "histogrammar.util"}]
+            st.frames = [{"%module": "histogrammar.util"}]
             res = X.call_function(st, fi, [w, VOpq(d, "datum")], {})
             for i, r in enumerate(res):
                 s = r.st
@@ -174,7 +174,7 @@ def run_task(P, task, prop, tier, out):
             st = State()
             ex = {"function": VOpq(z3.Const("f", core.Opq), "function"), "string": VStr(z3.Const("expr", core.StrS)), "none": NONE}[what]
             a = st.alloc(Inst("UserFcn", {"expr": ex, "name": VStr(z3.Const("n", core.StrS))}), new=False)
-            st.frames = [{"__module__": "histogrammar.util"}]
+            st.frames = [{"%module": "histogrammar.util"}]
             for i, r in enumerate(X.call_function(st, fi, [a, a], {})):
                 goal = z3.BoolVal(False) if r.exc is not None else X.truth(r.st, r.v)
                 vc = smt.build_vc("c17", r.st.fork(), goal)
